@@ -87,6 +87,14 @@ def insertRoot (v : Int) (r : Option Node) : List (Int × Option Node) → List 
 def setRoot (d : DB) (v : Int) (r : Option Node) : DB :=
   { d with roots := insertRoot v r d.roots }
 
+/-- delete every `(v, 1)` entry whose version `p` rejects -/
+def restrict (p : Int → Bool) (d : DB) : DB :=
+  { roots := d.roots.filter (fun q => p q.1), stuck := d.stuck.filter (fun q => p q.1) }
+
+/-- the leaf `n` stays behind under the key `(v, 1)` -/
+def addStuck (d : DB) (v : Int) (n : Node) : DB :=
+  { d with stuck := d.stuck ++ [(v, n)] }
+
 end DB
 
 /-- `MutableTree` + `nodeDB` -/
@@ -269,16 +277,31 @@ def deleteVersionsFrom (s : St) (fromVersion : Int) : St :=
   let ((_, latest), s) := s.getLatestVersion
   if latest < fromVersion then s
   else
-    let b := s.batch
-    let b' : DB := { roots := b.roots.filter (fun p => p.1 < fromVersion),
-                     stuck := b.stuck.filter (fun p => p.1 < fromVersion) }
-    { s with pend := some b', latest := fromVersion - 1 }
+    -- the range delete of every node key with version ≥ fromVersion
+    { s with pend := some (s.batch.restrict (fun v => decide (v < fromVersion))), latest := fromVersion - 1 }
 
 /-- `MutableTree.LoadVersionForOverwriting` (the protocol only calls it with `target ≥ 1`) -/
 def loadVersionForOverwriting (s : St) (target : Int) : Except Err Unit × St :=
   match s.loadVersion target with
   | (.error e, s) => (.error e, s)
   | (.ok _, s) => (.ok (), (s.deleteVersionsFrom (target + 1)).commit)
+
+/-- does the database key `(version, 1)` outlive `deleteVersion(version)`?  `prev` / `cur`
+are the roots of `version` and `version + 1`.  Yes iff the root of `version` was written
+under that key and the next version still holds that node as a child (then the root is a
+single leaf); the node is returned. -/
+def staysKey (version : Int) (prev cur : Option Node) : Option Node :=
+  match prev with
+  | none => none
+  | some p =>
+    if p.nk = some ⟨version, 1⟩ then
+      match cur with
+      | none => none
+      | some c =>
+        if c.nk = some ⟨version, 1⟩ then none          -- the next root itself: re-keyed to (version, 0)
+        else if c.hasNodeKey ⟨version, 1⟩ then some p  -- shared as a child: the key stays
+        else none                                      -- an orphan: deleted
+    else none
 
 /-- `ndb.deleteVersion`, abstracted (see the header): reads see `db`, writes go to the batch -/
 def deleteVersion (s : St) (version : Int) : Except Err St :=
@@ -288,27 +311,11 @@ def deleteVersion (s : St) (version : Int) : Except Err St :=
     match s.db.getRoot (version + 1) with
     | .error e => .error e
     | .ok cur =>
-      let self : NodeKey := ⟨version, 1⟩
-      -- does the database key (version, 1) outlive the version?
-      let stays : Option Node :=
-        match prev with
-        | none => none
-        | some p =>
-          if p.nk = some self then
-            match cur with
-            | none => none
-            | some c =>
-              if c.nk = some self then none          -- the next root itself: reformatted to (version, 0)
-              else if c.hasNodeKey self then some p  -- shared as a child: the key stays
-              else none                              -- an orphan: deleted
-          else none
-      let b := s.batch
-      let roots := b.roots.filter (fun p => p.1 ≠ version)
-      let stuck := b.stuck.filter (fun p => p.1 ≠ version)
-      let stuck := match stays with
-        | some p => stuck ++ [(version, p)]
-        | none => stuck
-      .ok { s with pend := some { roots := roots, stuck := stuck } }
+      let b := s.batch.restrict (fun v => decide (v ≠ version))
+      let b := match staysKey version prev cur with
+        | some p => b.addStuck version p
+        | none => b
+      .ok { s with pend := some b }
 
 /-- the loop of `ndb.deleteVersionsTo`: `for version := first; version <= toVersion; version++` -/
 def deleteLoop (to : Int) : Nat → St → Int → Except Err Unit × St
@@ -346,6 +353,54 @@ def reopen (s : St) : Except Err Int × St :=
   let s' : St := { db := s.db, pend := none, first := 0, latest := 0, root := none, version := 0,
                    lsRoot := none, lsVersion := 0, optIV := s.optIV, ivSet := s.optIV ≠ 0 }
   s'.loadVersion 0
+
+/-- `DeleteVersionsTo` behind the protocol guard: deleting the version the working tree
+was loaded from, or a newer one, while still newer versions exist is refused (`none`).
+The code has no such guard; without it the tree in memory points at deleted nodes and
+what happens next depends on the node cache.  "Deletions of old versions" in the
+property statement are the calls that pass it. -/
+def deleteVersionsToGuarded (s : St) (to : Int) : Option (Except Err Unit) × St :=
+  let ((_, latest), s) := s.getLatestVersion
+  if s.version ≤ to ∧ to < latest then (none, s)
+  else
+    let (r, s) := s.deleteVersionsTo to
+    (some r, s)
+
+end St
+
+/-! ## histories -/
+
+/-- the state-changing operations of the protocol (`Drive/C30.lean`) -/
+inductive Op where
+  | set (key : Bytes) (value : Option Bytes)
+  | remove (key : Bytes)
+  | save
+  | load (target : Int)
+  | lvo (target : Int)          -- LoadVersionForOverwriting, `target ≥ 1` (ignored otherwise)
+  | delto (to : Int)            -- DeleteVersionsTo behind the protocol guard
+  | rollback
+  | reopen
+  deriving Repr
+
+namespace St
+
+/-- one operation; a failing operation leaves the state the code leaves -/
+def step (H : Bytes → Bytes) (s : St) : Op → St
+  | .set k v => match s.set k v with
+    | .ok (_, s') => s'
+    | .error _ => s
+  | .remove k => match s.remove k with
+    | .ok (_, s') => s'
+    | .error _ => s
+  | .save => (s.saveVersion H).2
+  | .load v => (s.loadVersion v).2
+  | .lvo v => if v < 1 then s else (s.loadVersionForOverwriting v).2
+  | .delto v => (s.deleteVersionsToGuarded v).2
+  | .rollback => s.rollback
+  | .reopen => s.reopen.2
+
+/-- a history -/
+def run (H : Bytes → Bytes) (s : St) (ops : List Op) : St := ops.foldl (step H) s
 
 end St
 end GnoVerif.C30
